@@ -2774,8 +2774,9 @@ def sensor_acc(m: Model, d: Data):
   )
 
   # apply sensor delay/interval for acceleration sensors
+  # sensor_acc_adr lists every acceleration-stage sensor, limit-force sensors included: a second pass over
+  # sensor_limitfrc_adr would push the already delayed value back into the history buffer
   history.apply_sensor_delay(m, d, m.sensor_acc_adr)
-  history.apply_sensor_delay(m, d, m.sensor_limitfrc_adr)
 
   if m.callback.sensor:
     m.callback.sensor(m, d, Stage.ACC)
